@@ -1,6 +1,7 @@
 package worlds
 
 import (
+	"io"
 	"net"
 	"strconv"
 	"time"
@@ -146,6 +147,9 @@ type AssocRec struct {
 	Reads     [][]byte
 	EndErr    string
 	Replies   int
+	// EOFAfter: how long the Read call that ended in EOF had been waiting (0 = no EOF seen)
+	EOFAfter time.Duration
+	EOFAt    time.Duration
 }
 
 // UDPRec is a harness handler for UDP associations: reads datagrams (with a
@@ -187,7 +191,17 @@ func (u *UDPRec) Handle(cx *layer4.Connection, _ layer4.Handler) error {
 		}
 	}
 	for {
+		t0 := u.E.S.Elapsed()
 		n, err := cx.Read(buf)
+		if err == io.EOF {
+			now := u.E.S.Elapsed()
+			lk()
+			rec.EOFAfter, rec.EOFAt = now-t0, now
+			if rec.EOFAfter == 0 {
+				rec.EOFAfter = 1
+			}
+			ulk()
+		}
 		if n > 0 {
 			d := append([]byte(nil), buf[:n]...)
 			lk()
